@@ -166,6 +166,14 @@ pub fn run(op: &str, args: &[&str]) -> Option<String> {
             Ok(sum) => format!("OK|{}", dump(&sum)),
             Err(e) => err_obs(&e),
         },
+        /* does the text parse and print back byte for byte?  (model: the syntactic predicate is_canonical) */
+        "sum.canon" => {
+            let t = text(args[0]);
+            match Summary::from_str(&t) {
+                Ok(sum) => (if sum.to_string() == t { "T" } else { "F" }).to_string(),
+                Err(_) => "F".to_string(),
+            }
+        }
         /* each argument is one chunk of bytes */
         "stream" => {
             let mut st = SummaryStream::new();
